@@ -34,7 +34,7 @@ LEVEL_NOTE = ('Deciding tier is bounded. One deductive fragment IS discharged fo
               'get_attribute.attribute_operations / proxy.read_details are exercised only through the shared pipeline.')
 TECHNIQUE = ('bounded: reference parser for operation strings, format/parse path round trip, depth/bundle independence against the real simulator over TCP; '
              'deductive fragment contracts (pyvc, z3) on the bundle join/flush decision of connector.issue and on the flow-control loop of connector.pipeline, whole-function contract on connector.harvest')
-TRUSTED = ['the independent reference parser of the operation syntax in this file', 'T9 fragment contract: the rest of connector.issue is unverified',
+TRUSTED = ['producer contracts shared with C01 / C07 carry their assumptions (nested producers as opaque byte strings)', 'the independent reference parser of the operation syntax in this file', 'T9 fragment contract: the rest of connector.issue is unverified',
            'connector.multiple is an assumed callee (ghost call record)', 'the issue() and harvest() generators driven by pipeline are assumed (FIFO replies or cease)']
 ASSUMPTIONS = ['one client connection at a time']
 
